@@ -31,8 +31,8 @@ SPEC = {
                   "prior_state_corruptions": 20, "prior_state_frontier_emptied_ironwood": 4, "prior_state_frontier_emptied_orchard": 4, "prior_state_frontier_emptied_sapling": 4,
                   "prior_state_true_state_accepted": 20, "corruptions_mid_batch": 150, "corruption_mid_batch_IronwoodSizePlus1": 4,
                   "corruption_HeaderGarbageHashEmpty": 5, "corruption_HeaderGarbagePrevHashShort": 5},
-        "thorough": {"inline_blocks_checked": 12000, "batched_blocks_checked": 16000, "inline_vs_batched_comparisons": 10000,
-                     "wallet_outputs_in_truth": 100000, "corruptions_rejected_batched": 15000, "distinct_schedules_observed": 300, "distinct_nontrivial": 400,
+        "thorough": {"inline_blocks_checked": 7000, "batched_blocks_checked": 10000, "inline_vs_batched_comparisons": 6000,
+                     "wallet_outputs_in_truth": 60000, "corruptions_rejected_batched": 9000, "distinct_schedules_observed": 300, "distinct_nontrivial": 400,
                      "prior_state_corruptions": 1000, "prior_state_frontier_emptied_ironwood": 150, "prior_state_true_state_accepted": 1000,
                      "corruptions_mid_batch": 8000, "corruption_mid_batch_IronwoodSizePlus1": 150, "corruption_HeaderGarbageHashEmpty": 150},
     },
